@@ -59,6 +59,7 @@ static int g_inact[MAXQ];       /* created inactive in this execution */
 static uint64_t g_act_seq[MAXQ];
 static int g_serial_bottom;
 static int g_wfix[MAXQ];        /* width per queue index, fixed for the whole run (word-level cfg) */
+static int g_lanefix[MAXQ];
 
 static item_t g_items[MAXI];
 static _Atomic int g_nitems;
@@ -164,6 +165,17 @@ static void *client(void *arg)
 }
 
 /* ------------------------------- projection ------------------------------- */
+#define MAXEV 4096
+static const volatile void *g_evaddr[MAXEV];
+static int g_nev;
+static int ev_id(const volatile void *a, int create)
+{
+	for (int i = 0; i < g_nev; i++) if (g_evaddr[i] == a) return i;
+	if (!create || g_nev >= MAXEV) return -1;
+	g_evaddr[g_nev] = a;
+	return g_nev++;
+}
+
 static void pabs(FILE *f, const char *k, uint64_t s, int W)
 {
 	int64_t wb = (int64_t)((s & DISPATCH_QUEUE_WIDTH_MASK) >> DISPATCH_QUEUE_WIDTH_SHIFT);
@@ -193,8 +205,9 @@ static void proj(FILE *f, const vrt_rec_t *r)
 {
 	switch (r->kind) {
 	case VRT_MARK:
-		/* a = queue index, b = width, c = created inactive */
-		fprintf(f, "{\"e\":\"%s\",\"q\":%ld,\"w\":%ld,\"inactive\":%s}\n", r->name, r->a, r->b, r->c ? "true" : "false");
+		/* a = queue index, b = width (0: a workloop), c = created inactive | (index of the final target + 1) << 1 (0: root) */
+		fprintf(f, "{\"e\":\"%s\",\"q\":%ld,\"w\":%ld,\"lane\":%s,\"inactive\":%s,\"tq\":%ld}\n", r->name, r->a, r->b ? r->b : 1,
+				r->b ? "true" : "false", (r->c & 1) ? "true" : "false", (r->c >> 1) - 1);
 		break;
 	case VRT_API:
 	{
@@ -203,8 +216,32 @@ static void proj(FILE *f, const vrt_rec_t *r)
 				(isitem && r->b >= 0 && r->b < 6) ? KN[r->b] : "-", r->c, (unsigned long long)r->seq);
 		break;
 	}
+	case VRT_PROBE: {
+		int id = ev_id(r->addr, 0);
+		if (id < 0 || strncmp(r->name, "futex_", 6)) break;   /* only futex calls on words known to be thread events */
+		fprintf(f, "{\"e\":\"Tf\",\"t\":%d,\"a\":%d,\"k\":\"%s\",\"v\":%d,\"b\":%ld}\n", r->tid, id, r->name, (int)(int32_t)r->a, r->b);
+		break;
+	}
 	case VRT_ATOMIC:
-		if (r->cls != 1 || r->obj < 0 || r->obj >= MAXQ) break;
+		if (r->cls == 100) {
+			/* dispatch_thread_event_t of a blocked synchronous caller (spec/ThreadEventTrace.tla) */
+			fprintf(f, "{\"e\":\"Te\",\"t\":%d,\"a\":%d,\"op\":\"%s\",\"mo\":\"%s\",\"old\":%d,\"new\":%d,\"f\":\"%s\"}\n", r->tid,
+					ev_id(r->addr, 1), r->site->dvs_op, r->site->dvs_mo, (int)(int32_t)r->oldv, (int)(int32_t)r->newv, r->site->dvs_func);
+			break;
+		}
+		if (r->obj < 0 || r->obj >= MAXQ) break;
+		if (r->cls == 2) {
+			/* item list of queue q: who made it non-empty (exchange of dq_items_tail) and when it became empty again */
+			if (strstr(r->site->dvs_expr, "tail") && g_lanefix[r->obj]) {
+				if (!strcmp(r->site->dvs_op, "xchg"))
+					fprintf(f, "{\"e\":\"Tail\",\"q\":%d,\"t\":%d,\"f\":\"%s\",\"first\":%s,\"null\":%s}\n", r->obj, r->tid, r->site->dvs_func,
+							r->oldv == 0 ? "true" : "false", r->newv == 0 ? "true" : "false");
+				else if (!strcmp(r->site->dvs_op, "cmpxchg") && r->ok && r->newv == 0)
+					fprintf(f, "{\"e\":\"Tail\",\"q\":%d,\"t\":%d,\"f\":\"%s\",\"first\":false,\"null\":true}\n", r->obj, r->tid, r->site->dvs_func);
+			}
+			break;
+		}
+		if (r->cls != 1) break;
 		if (r->size == 4) {
 			fprintf(f, "{\"e\":\"St\",\"q\":%d,\"t\":%d,\"f\":\"%s\",\"op\":\"half\",\"mo\":\"%s\",\"ok\":%d,\"line\":%d}\n", r->obj, r->tid,
 					r->site->dvs_func, r->site->dvs_mo, r->ok, r->site->dvs_line);
@@ -338,8 +375,12 @@ int main(int argc, char **argv)
 	if (argc > 9) NT = atoi(argv[9]);
 	vrt_init(out, g_seed, perturb);
 	vrt_set_projector(proj);
+	vrt_add_class("dte_value", 100);     /* thread events: any address */
+	vrt_set_probe_filter(0);             /* futex probes on them are recorded (and perturbed) too */
 	vrt_add_class("dq_state", 1);
 	vrt_add_class("dq_items_tail", 2);
+	vrt_add_class("_os_mpsc_tail", 2);
+	vrt_add_class("_os_mpsc_head", 2);
 	vrt_add_class("dq_items_head", 2);
 	vrt_add_class("do_next", 2);
 	vrt_set_hang_seconds(25);
@@ -360,12 +401,12 @@ int main(int argc, char **argv)
 		vrt_unregister_all();
 		for (int k = 0; k < g_nq; k++) {
 			g_obj[k] = vrt_register(g_q[k], malloc_usable_size(g_q[k]), 1);
-			if (e == 0) g_wfix[k] = g_w[k];
+			if (e == 0) { g_wfix[k] = g_w[k]; g_lanefix[k] = g_islane[k]; }
 		}
 		atomic_store(&g_nitems, 0); atomic_store(&g_done_threads, 0);
 		g_chain = 0;
 		vrt_pause(0);
-		for (int k = 0; k < g_nq; k++) vrt_mark("Reset", k, g_w[k], g_inact[k]);
+		for (int k = 0; k < g_nq; k++) vrt_mark("Reset", k, g_islane[k] ? g_w[k] : 0, g_inact[k] | ((g_tgt[k] + 1) << 1));
 		pthread_barrier_wait(&g_bar);
 		if (g_shape == 5) {
 			/* retarget the inactive leaves while clients already submit to them, then activate */
